@@ -3999,9 +3999,11 @@ impl<'a> ZonedDifference<'a> {
         // The intermediate datetime (the time of `zdt1` on a date close to
         // the date of `zdt2`) must not be past `zdt2`. Because of time zone
         // transitions (for example, a gap that skips an entire civil day),
-        // up to two corrections of a whole day may be needed, including the
-        // initial one implied by the clock times.
-        let max_day_correct: t::SpanDays = C(2).rinto();
+        // more than one correction of a whole day may be needed in addition
+        // to the initial one implied by the clock times. Offsets are limited
+        // to just under 26 hours, so a single transition skips less than 52
+        // hours of civil time, which spans at most three civil dates.
+        let max_day_correct: t::SpanDays = C(4).rinto();
         let mut day_correct: t::SpanDays = C(0).rinto();
         if -sign == dt1.time().until_nanoseconds(dt2.time()).signum() {
             day_correct += C(1);
